@@ -15,7 +15,7 @@
    block-filling body.                                                                                              *)
 EXTENDS BlockRules, TLC, Json
 
-CONSTANTS ParentGasLimits, SlotDistances, PairBodies, RichTx
+CONSTANTS ParentGasLimits, SlotDistances, PairBodies, RichTx, Factored
 
 AllCfg == [vip191 : BOOLEAN, vip214 : BOOLEAN, finality : BOOLEAN, galactica : BOOLEAN, gfirst : BOOLEAN, pos : BOOLEAN, nprop : {3}]
 Cfgs == {g \in AllCfg : /\ (g.vip214 => g.vip191) /\ (g.finality => g.vip214) /\ (g.galactica => g.finality)
@@ -73,12 +73,32 @@ BodiesFor(g, par, gld) == {b \in Bodies(g, par) : gld = "same" \/ Len(b) < 2}
 VARIABLES base, key, mutant
 vars == <<base, key, mutant>>
 
-\* Init enumerates the universe (quantifiers instead of one big set: TLC would normalise that set first)
-Init == \E g \in Cfgs : \E par \in Pars(g) : \E gld \in {"same", "up", "down"} : \E dk \in SlotDistances :
+\* Init enumerates the universe (quantifiers instead of one big set: TLC would normalise that set first).
+\* Full product:
+InitFull == \E g \in Cfgs : \E par \in Pars(g) : \E gld \in {"same", "up", "down"} : \E dk \in SlotDistances :
           \E com \in IF g.finality THEN BOOLEAN ELSE {FALSE} : \E sbset \in IF g.pos THEN BOOLEAN ELSE {FALSE} :
             \E txs \in BodiesFor(g, par, gld) :
                /\ base = BaseCase(g, par, dk, gld, com, sbset, txs)
                /\ key = <<"none", "none">> /\ mutant = base
+\* Factored (quick tier): dimensions that no rule couples are not multiplied -
+\*   parent gas usage / base fee vary only where the base-fee recurrence reads them (GALACTICA, not its first block, PoA);
+\*   header dimensions run over three bodies (empty, two plain transfers, block-filling);
+\*   all bodies run over one parent per fork profile.
+FewBodies(g, par, gld) == {b \in BodiesFor(g, par, gld) : Len(b) = 0 \/ (Len(b) = 2 /\ b[1] = Plain(g) /\ b[2].typ = "legacy" /\ b[2].feat = 0 /\ b[2].dep = "none")}
+ParsFor(g) == IF g.galactica /\ ~g.gfirst /\ ~g.pos THEN Pars(g)
+              ELSE {ParOf(g, FromInt(gl), FromInt(21000), InitialBaseFee) : gl \in ParentGasLimits}
+InitFactored ==
+  \/ \E g \in Cfgs : \E par \in ParsFor(g) : \E gld \in {"same", "up", "down"} : \E dk \in SlotDistances :
+       \E com \in IF g.finality THEN BOOLEAN ELSE {FALSE} : \E sbset \in IF g.pos THEN BOOLEAN ELSE {FALSE} :
+         \E txs \in FewBodies(g, par, gld) :
+            /\ base = BaseCase(g, par, dk, gld, com, sbset, txs)
+            /\ key = <<"none", "none">> /\ mutant = base
+  \/ \E g \in Cfgs : \E com \in IF g.finality THEN BOOLEAN ELSE {FALSE} : \E sbset \in IF g.pos THEN BOOLEAN ELSE {FALSE} :
+       LET par == ParOf(g, FromInt(2000000), FromInt(21000), InitialBaseFee)
+       IN \E txs \in Bodies(g, par) :
+            /\ base = BaseCase(g, par, 1, "same", com, sbset, txs)
+            /\ key = <<"none", "none">> /\ mutant = base
+Init == IF Factored THEN InitFactored ELSE InitFull
 Next == /\ key = <<"none", "none">>
         /\ \E k \in CatKeys : /\ Applicable(base, k) /\ key' = k /\ mutant' = Mutate(base, k)
         /\ UNCHANGED base
